@@ -246,37 +246,329 @@ func (u *Unit) cborWellformed(fr *Frame, st *State, x *ssa.Call, recv Term, args
 
 // ---- DecMode.Unmarshal ----
 
+const tidDecOther = 900006 // cbor.Tag, big.Int, float values decoded into an interface
+
 func (u *Unit) cborUnmarshal(fr *Frame, st *State, x *ssa.Call, recv Term, args []*Val) *State {
 	data := args[0].T
 	b := u.bytesOf(st, data)
-	mi, ok := x.Call.Args[1].(*ssa.MakeInterface)
-	if !ok {
+	var dstV ssa.Value
+	switch a := x.Call.Args[1].(type) {
+	case *ssa.MakeInterface:
+		dstV = a.X
+	default:
 		panic("Unmarshal destination is not a MakeInterface in " + fnName(fr.fn))
 	}
-	pt, ok := mi.X.Type().Underlying().(*types.Pointer)
+	pt, ok := dstV.Type().Underlying().(*types.Pointer)
 	if !ok {
 		panic("Unmarshal destination is not a pointer")
 	}
-	dst := u.operand(fr, mi.X).T
-	key := typeKey(pt.Elem())
+	dst := u.operand(fr, dstV).T
 	u.reqNonNil(fr, st, x, dst)
-	m, ok := decodeModels[key]
-	if !ok {
-		// generic: destination havocked, error arbitrary
-		u.eng.warn("cbor Unmarshal into " + key + ": generic model (destination arbitrary on success)")
-		err := u.define("decerr", App(SAny, "dec_err", recv, b, IntLit(int64(len(key)))))
-		a1 := u.fresh("alloc", SInt)
-		u.assume(st.pc, Ge(a1, u.comp(st, "alloc")))
-		st.comps["alloc"] = a1
-		pre := st.Clone()
-		u.havocType(st, dst, pt.Elem())
-		// on error the destination is unchanged? not guaranteed by the library; leave arbitrary
-		_ = pre
-		u.assume(st.pc, App(SBool, "any_ok", err, a1))
+	elem := pt.Elem()
+	// destination types with an UnmarshalCBOR method in the repository: the library checks that the data is one
+	// well-formed item and then hands exactly those bytes to the method
+	if fn := u.repoUnmarshaler(elem); fn != nil {
+		return u.decodeViaMethod(fr, st, x, recv, data, b, dst, fn)
+	}
+	key := typeKey(elem)
+	if m, ok := decodeModels[key]; ok {
+		return m(u, fr, st, x, recv, data, b, dst, elem)
+	}
+	if stt, ok := elem.Underlying().(*types.Struct); ok && isToArray(stt) {
+		return u.decodeToArray(fr, st, x, recv, data, b, dst, elem, stt)
+	}
+	switch key {
+	case "interface{}", "any":
+		return u.decodeAny(fr, st, x, recv, b, dst)
+	case "map[interface{}]interface{}", "map[any]any":
+		return u.decodeMapAny(fr, st, x, recv, b, dst, elem)
+	case "map[interface{}]github.com/fxamacker/cbor/v2.RawMessage", "map[any]github.com/fxamacker/cbor/v2.RawMessage":
+		return u.decodeMapRaw(fr, st, x, recv, b, dst, elem)
+	case "map[github.com/veraison/go-cose.headerLabelValidator]github.com/veraison/go-cose.discardedCBORMessage":
+		err := u.define("labelserr", App(SAny, "dec_labels_err", recv, b))
+		u.assume(st.pc, App(SBool, "any_ok", err, u.comp(st, "alloc")))
+		// the local destination map is never read afterwards; it becomes an arbitrary fresh map
+		id := u.newObj(st)
+		H := u.comp(st, hcomp(SInt))
+		u.setComp(st, hcomp(SInt), Ite(Eq(err, AnyNil), Store(H, dst, id), H))
 		fr.vals[x] = &Val{T: err}
 		return st
+	case "[]*github.com/veraison/go-cose.Countersignature":
+		return u.decodePtrList(fr, st, x, recv, b, dst, elem)
 	}
-	return m(u, fr, st, x, recv, data, b, dst, pt.Elem())
+	// generic: destination havocked, error arbitrary
+	u.eng.warn("cbor Unmarshal into " + key + ": generic model (destination arbitrary on success)")
+	err := u.define("decerr", App(SAny, "dec_shape_err", recv, b, u.eng.strLit(key)))
+	a1 := u.fresh("alloc", SInt)
+	u.assume(st.pc, Ge(a1, u.comp(st, "alloc")))
+	st.comps["alloc"] = a1
+	u.havocType(st, dst, elem)
+	u.assume(st.pc, App(SBool, "any_ok", err, a1))
+	fr.vals[x] = &Val{T: err}
+	return st
+}
+
+func isToArray(st *types.Struct) bool {
+	if st.NumFields() == 0 {
+		return false
+	}
+	return st.Field(0).Name() == "_" && strings.Contains(st.Tag(0), "toarray")
+}
+
+// repoUnmarshaler: the repository's UnmarshalCBOR for *t, if any.
+func (u *Unit) repoUnmarshaler(t types.Type) *ssa.Function {
+	ms := u.eng.prog.MethodSets.MethodSet(types.NewPointer(t))
+	sel := ms.Lookup(u.eng.pkg.Pkg, "UnmarshalCBOR")
+	if sel == nil {
+		return nil
+	}
+	fn := u.eng.prog.MethodValue(sel)
+	if fn == nil || fn.Pkg != u.eng.pkg || fn.Synthetic != "" {
+		return nil
+	}
+	// the method must be declared on *t itself (not promoted through embedding)
+	return fn
+}
+
+func (u *Unit) wfFacts(st *State, mode, b Term) Term {
+	err := u.define("wferr", App(SAny, "wf_err", mode, b))
+	u.assume(st.pc, App(SBool, "any_ok", err, u.comp(st, "alloc")))
+	u.assume(st.pc, Implies(Eq(err, AnyNil), And(Ge(App(SInt, "blen", b), IntLit(1)), App(SBool, "item_wf", b))))
+	u.assume(st.pc, Implies(Eq(App(SInt, "div", App(SInt, "bat", b, IntLit(0)), IntLit(32)), IntLit(2)),
+		Iff(Eq(err, AnyNil), And(Ge(App(SInt, "blen", b), IntLit(1)), App(SBool, "bstr_wf", b)))))
+	return err
+}
+
+func (u *Unit) decodeViaMethod(fr *Frame, st *State, x *ssa.Call, mode, data, b, dst Term, fn *ssa.Function) *State {
+	u.comment("Unmarshal dispatches to " + fnName(fn) + " after a well-formedness check")
+	wf := u.wfFacts(st, mode, b)
+	ok := st.Clone()
+	ok.pc = u.define("pc", And(st.pc, Eq(wf, AnyNil)))
+	bad := st.Clone()
+	bad.pc = u.define("pc", And(st.pc, Neq(wf, AnyNil)))
+	res, st2 := u.callMethodForLibrary(fr, ok, x, fn, []*Val{{T: dst}, {T: data}})
+	if st2 == nil {
+		fr.vals[x] = &Val{T: wf}
+		return bad
+	}
+	out := u.merge([]*State{st2, bad})
+	fr.vals[x] = &Val{T: u.define("decerr", Ite(st2.pc, res[0].T, wf))}
+	return out.Clone()
+}
+
+// freshBytes allocates a new byte slice holding content.
+func (u *Unit) freshBytes(st *State, content Term) Term {
+	id := u.newObj(st)
+	E := u.comp(st, ecomp(SInt))
+	ln := App(SInt, "blen", content)
+	u.setComp(st, ecomp(SInt), Store(E, id, App(ArraySort(SInt, SInt), "wr", Select(E, id), IntLit(0), content)))
+	return u.define("fresh", MkSlice(id, IntLit(0), ln, ln))
+}
+
+// decodeToArray: destination is a toarray struct (sign1Message, signature, signMessage).
+func (u *Unit) decodeToArray(fr *Frame, st *State, x *ssa.Call, mode, data, b, dst Term, elem types.Type, stt *types.Struct) *State {
+	name := u.eng.strLit(typeKey(elem))
+	err0 := u.define("decerr", App(SAny, "dec_shape_err", mode, b, name))
+	u.assume(st.pc, App(SBool, "any_ok", err0, u.comp(st, "alloc")))
+	k := stt.NumFields() - 1
+	okc := Eq(err0, AnyNil)
+	// library contract on success: b is exactly one definite-length array item of k elements, each a well-formed item
+	var cat Term
+	for i := k - 1; i >= 0; i-- {
+		e := App(SBytes, "dec_elem", b, IntLit(int64(i)))
+		u.assume(st.pc, Implies(okc, And(Ge(App(SInt, "blen", e), IntLit(1)), App(SBool, "item_wf", e))))
+		if cat.S == "" {
+			cat = e
+		} else {
+			cat = App(SBytes, "bcat", e, cat)
+		}
+	}
+	u.assume(st.pc, Implies(okc, And(Ge(App(SInt, "blen", b), IntLit(1)), App(SBool, "item_wf", b))))
+	// with the shortest-form array head (which the repository's prefix checks demand) the item is head ++ elements
+	u.assume(st.pc, Implies(And(okc, Eq(App(SInt, "bat", b, IntLit(0)), IntLit(int64(0x80+k)))), Eq(b, App(SBytes, "bcat", App(SBytes, "byte1", IntLit(int64(0x80+k))), cat))))
+	good := st.Clone()
+	good.pc = u.define("pc", And(st.pc, okc))
+	bad := st.Clone()
+	bad.pc = u.define("pc", And(st.pc, Not(okc)))
+	cur := good
+	fieldErr := AnyNil
+	for i := 1; i <= k; i++ {
+		ft := stt.Field(i).Type()
+		fa := FieldAddrT(dst, i)
+		e := App(SBytes, "dec_elem", b, IntLit(int64(i-1)))
+		fk := typeKey(ft)
+		switch {
+		case fk == "github.com/fxamacker/cbor/v2.RawMessage":
+			sl := u.freshBytes(cur, e)
+			u.storeType(cur, fa, ft, sl)
+		case u.repoUnmarshaler(ft) != nil:
+			tmp := u.freshBytes(cur, e)
+			res, st2 := u.callMethodForLibrary(fr, cur, x, u.repoUnmarshaler(ft), []*Val{{T: fa}, {T: tmp}})
+			if st2 == nil {
+				panic("field decoder never returns")
+			}
+			cur = st2
+			fieldErr = u.define("fielderr", Ite(Eq(fieldErr, AnyNil), res[0].T, fieldErr))
+		case fk == "[]github.com/fxamacker/cbor/v2.RawMessage":
+			n := u.define("n", App(SInt, "dec_count", b, IntLit(int64(i-1))))
+			isnil := App(SBool, "dec_isnull", b, IntLit(int64(i-1)))
+			id := u.newObj(cur)
+			base := u.comp(cur, "alloc")
+			a1 := u.fresh("alloc", SInt)
+			u.assume(cur.pc, Ge(a1, Add(base, n)))
+			cur.comps["alloc"] = a1
+			u.assume(cur.pc, Implies(isnil, Eq(n, IntLit(0))))
+			// element j is a fresh slice (object base+j) holding the j-th element's bytes
+			ES := u.comp(cur, ecomp(SSlice))
+			EI := u.comp(cur, ecomp(SInt))
+			newES := u.fresh("decarr", ArraySort(SInt, SSlice))
+			newEI := u.fresh("decmem", compSort(ecomp(SInt)))
+			q := Term{"qj!", SInt}
+			ej := App(SBytes, "dec_elem2", b, IntLit(int64(i-1)), q)
+			inr := And(Le(IntLit(0), q), Lt(q, n))
+			u.assume(cur.pc, Forall([]Term{q}, Implies(inr, And(
+				Eq(Select(newES, q), MkSlice(Add(base, q), IntLit(0), App(SInt, "blen", ej), App(SInt, "blen", ej))),
+				Ge(App(SInt, "blen", ej), IntLit(1)), App(SBool, "item_wf", ej),
+				Eq(App(SBytes, "view", Select(newEI, Add(base, q)), IntLit(0), App(SInt, "blen", ej)), ej))), []Term{Select(newES, q)}))
+			qi := Term{"qi!", SInt}
+			u.assume(cur.pc, Forall([]Term{qi}, Implies(Lt(qi, base), Eq(Select(newEI, qi), Select(EI, qi))), []Term{Select(newEI, qi)}))
+			u.setComp(cur, ecomp(SInt), newEI)
+			u.setComp(cur, ecomp(SSlice), Store(ES, id, newES))
+			sl := u.define("declist", Ite(isnil, NilSlice, MkSlice(id, IntLit(0), n, n)))
+			u.storeType(cur, fa, ft, sl)
+		default:
+			panic("decodeToArray: unsupported field type " + fk)
+		}
+	}
+	out := u.merge([]*State{cur, bad})
+	fr.vals[x] = &Val{T: u.define("decerr", Ite(cur.pc, fieldErr, err0))}
+	return out.Clone()
+}
+
+func (u *Unit) decodeAny(fr *Frame, st *State, x *ssa.Call, mode, b, dst Term) *State {
+	err := u.define("decerr", App(SAny, "dec_shape_err", mode, b, u.eng.strLit("any")))
+	a1 := u.fresh("alloc", SInt)
+	u.assume(st.pc, Ge(a1, u.comp(st, "alloc")))
+	st.comps["alloc"] = a1
+	u.assume(st.pc, App(SBool, "any_ok", err, a1))
+	v := u.define("decany", App(SAny, "dec_any", mode, b))
+	u.assume(st.pc, Implies(Eq(err, AnyNil), And(App(SBool, "any_ok", v, a1), App(SBool, "dec_val_ok", v), Ge(App(SInt, "blen", b), IntLit(1)), App(SBool, "item_wf", b))))
+	H := u.comp(st, hcomp(SAny))
+	u.setComp(st, hcomp(SAny), Ite(Eq(err, AnyNil), Store(H, dst, v), H))
+	fr.vals[x] = &Val{T: err}
+	return st
+}
+
+func (u *Unit) decodeMapAny(fr *Frame, st *State, x *ssa.Call, mode, b, dst Term, elem types.Type) *State {
+	mt := elem.Underlying().(*types.Map)
+	md, mv, ks, _ := u.mapComps(mt)
+	err := u.define("decerr", App(SAny, "dec_shape_err", mode, b, u.eng.strLit("map[any]any")))
+	id := u.newObj(st)
+	a1 := u.fresh("alloc", SInt)
+	u.assume(st.pc, Ge(a1, u.comp(st, "alloc")))
+	st.comps["alloc"] = a1
+	u.assume(st.pc, App(SBool, "any_ok", err, a1))
+	okc := Eq(err, AnyNil)
+	dom := App(ArraySort(ks, SBool), "dec_map_dom", mode, b)
+	val := App(ArraySort(ks, SAny), "dec_map_val", mode, b)
+	ln := App(SInt, "dec_map_len", mode, b)
+	isMap := Eq(App(SInt, "div", App(SInt, "bat", b, IntLit(0)), IntLit(32)), IntLit(5))
+	q := Term{"qk!", ks}
+	empty := Term{fmt.Sprintf("((as const (Array %s Bool)) false)", ks), ArraySort(ks, SBool)}
+	u.assume(st.pc, Implies(okc, And(Ge(App(SInt, "blen", b), IntLit(1)), App(SBool, "item_wf", b),
+		Iff(Eq(ln, IntLit(0)), Eq(dom, empty)),
+		Forall([]Term{q}, Implies(Select(dom, q), And(Ge(ln, IntLit(1)), App(SBool, "any_hashable", q), App(SBool, "dec_val_ok", q), App(SBool, "any_ok", q, a1),
+			App(SBool, "dec_val_ok", Select(val, q)), App(SBool, "any_ok", Select(val, q), a1))), []Term{Select(dom, q)}))))
+	// the pre-validation of labels (when it succeeded on the same bytes) leaves only int64 / text keys
+	u.assume(st.pc, Implies(And(okc, Eq(App(SAny, "dec_labels_err", mode, b), AnyNil)),
+		Forall([]Term{q}, Implies(Select(dom, q), Or(Term{"((_ is A_int64) " + q.S + ")", SBool}, Term{"((_ is A_string) " + q.S + ")", SBool})), []Term{Select(dom, q)})))
+	D, V, L := u.comp(st, md), u.comp(st, mv), u.comp(st, "ML")
+	u.setComp(st, md, Ite(And(okc, isMap), Store(D, id, dom), D))
+	u.setComp(st, mv, Ite(And(okc, isMap), Store(V, id, val), V))
+	u.setComp(st, "ML", Ite(And(okc, isMap), Store(L, id, ln), L))
+	H := u.comp(st, hcomp(SInt))
+	// a map item yields a fresh map; null / undefined yield a nil map; anything else is an error
+	u.assume(st.pc, Implies(And(okc, Not(isMap)), Or(Eq(App(SInt, "bat", b, IntLit(0)), IntLit(246)), Eq(App(SInt, "bat", b, IntLit(0)), IntLit(247)))))
+	u.setComp(st, hcomp(SInt), Ite(okc, Store(H, dst, Ite(isMap, id, IntLit(0))), H))
+	fr.vals[x] = &Val{T: err}
+	return st
+}
+
+func (u *Unit) decodeMapRaw(fr *Frame, st *State, x *ssa.Call, mode, b, dst Term, elem types.Type) *State {
+	mt := elem.Underlying().(*types.Map)
+	md, mv, ks, vs := u.mapComps(mt)
+	err := u.define("decerr", App(SAny, "dec_shape_err", mode, b, u.eng.strLit("map[any]RawMessage")))
+	id := u.newObj(st)
+	base := u.comp(st, "alloc")
+	a1 := u.fresh("alloc", SInt)
+	u.assume(st.pc, Ge(a1, base))
+	st.comps["alloc"] = a1
+	u.assume(st.pc, App(SBool, "any_ok", err, a1))
+	okc := Eq(err, AnyNil)
+	dom := App(ArraySort(ks, SBool), "dec_map_dom", mode, b)
+	ln := App(SInt, "dec_map_len", mode, b)
+	isMap := Eq(App(SInt, "div", App(SInt, "bat", b, IntLit(0)), IntLit(32)), IntLit(5))
+	q := Term{"qk!", ks}
+	empty := Term{fmt.Sprintf("((as const (Array %s Bool)) false)", ks), ArraySort(ks, SBool)}
+	val := u.fresh("rawvals", ArraySort(ks, vs))
+	EI := u.comp(st, ecomp(SInt))
+	newEI := u.fresh("decmem", compSort(ecomp(SInt)))
+	rb := App(SBytes, "dec_map_raw", mode, b, q)
+	oid := App(SInt, "dec_obj", base, q)
+	u.assume(st.pc, Implies(okc, And(Ge(App(SInt, "blen", b), IntLit(1)), App(SBool, "item_wf", b),
+		Iff(Eq(ln, IntLit(0)), Eq(dom, empty)),
+		Forall([]Term{q}, Implies(Select(dom, q), And(Ge(ln, IntLit(1)), App(SBool, "any_hashable", q), App(SBool, "dec_val_ok", q), App(SBool, "any_ok", q, a1),
+			Le(base, oid), Lt(oid, a1),
+			Eq(Select(val, q), MkSlice(oid, IntLit(0), App(SInt, "blen", rb), App(SInt, "blen", rb))),
+			Ge(App(SInt, "blen", rb), IntLit(1)), App(SBool, "item_wf", rb),
+			Eq(App(SBytes, "view", Select(newEI, oid), IntLit(0), App(SInt, "blen", rb)), rb))), []Term{Select(dom, q)}))))
+	u.assume(st.pc, Implies(And(okc, Eq(App(SAny, "dec_labels_err", mode, b), AnyNil)),
+		Forall([]Term{q}, Implies(Select(dom, q), Or(Term{"((_ is A_int64) " + q.S + ")", SBool}, Term{"((_ is A_string) " + q.S + ")", SBool})), []Term{Select(dom, q)})))
+	qi := Term{"qi!", SInt}
+	u.assume(st.pc, Forall([]Term{qi}, Implies(Lt(qi, base), Eq(Select(newEI, qi), Select(EI, qi))), []Term{Select(newEI, qi)}))
+	u.setComp(st, ecomp(SInt), Ite(okc, newEI, EI))
+	D, V, L := u.comp(st, md), u.comp(st, mv), u.comp(st, "ML")
+	u.setComp(st, md, Ite(And(okc, isMap), Store(D, id, dom), D))
+	u.setComp(st, mv, Ite(And(okc, isMap), Store(V, id, val), V))
+	u.setComp(st, "ML", Ite(And(okc, isMap), Store(L, id, ln), L))
+	H := u.comp(st, hcomp(SInt))
+	u.setComp(st, hcomp(SInt), Ite(okc, Store(H, dst, Ite(isMap, id, IntLit(0))), H))
+	fr.vals[x] = &Val{T: err}
+	return st
+}
+
+// decodePtrList: []*T where *T has a repository UnmarshalCBOR. The list may be nil (null / undefined item), and
+// each element is nil (null / undefined element) or a fresh object; nothing is known about the objects' contents.
+func (u *Unit) decodePtrList(fr *Frame, st *State, x *ssa.Call, mode, b, dst Term, elem types.Type) *State {
+	err := u.define("decerr", App(SAny, "dec_shape_err", mode, b, u.eng.strLit(typeKey(elem))))
+	id := u.newObj(st)
+	base := u.comp(st, "alloc")
+	a1 := u.fresh("alloc", SInt)
+	u.assume(st.pc, Ge(a1, base))
+	st.comps["alloc"] = a1
+	u.assume(st.pc, App(SBool, "any_ok", err, a1))
+	okc := Eq(err, AnyNil)
+	n := u.define("n", App(SInt, "dec_count", b, IntLit(-1)))
+	isnil := App(SBool, "dec_isnull", b, IntLit(-1))
+	u.assume(st.pc, Implies(isnil, Eq(n, IntLit(0))))
+	arr := u.fresh("decptrs", ArraySort(SInt, SAddr))
+	q := Term{"qj!", SInt}
+	p := Select(arr, q)
+	u.assume(st.pc, Forall([]Term{q}, Or(Eq(p, NilAddr), And(Le(base, App(SInt, "aobj", p)), Lt(App(SInt, "aobj", p), a1), Eq(App("Path", "apath", p), Term{"pnil", "Path"}))), []Term{p}))
+	// the heap cells of the fresh objects are arbitrary: havoc every pointer-addressed component above base
+	for _, k := range compKeys2(map[string]bool{hcomp(SInt): true, hcomp(SSlice): true, hcomp(SAny): true, hcomp(SAddr): true, hcomp(SBool): true, hcomp(SStr): true}) {
+		old := u.comp(st, k)
+		nw := u.fresh("hv!"+k, compSort(k))
+		qa := Term{"qa!", SAddr}
+		u.assume(st.pc, Forall([]Term{qa}, Implies(Lt(App(SInt, "aobj", qa), base), Eq(Select(nw, qa), Select(old, qa))), []Term{Select(nw, qa)}))
+		u.setComp(st, k, Ite(okc, nw, old))
+	}
+	EA := u.comp(st, ecomp(SAddr))
+	u.setComp(st, ecomp(SAddr), Ite(okc, Store(EA, id, arr), EA))
+	H := u.comp(st, hcomp(SSlice))
+	u.setComp(st, hcomp(SSlice), Ite(okc, Store(H, dst, Ite(isnil, NilSlice, MkSlice(id, IntLit(0), n, n))), H))
+	fr.vals[x] = &Val{T: err}
+	return st
 }
 
 type decodeModel func(u *Unit, fr *Frame, st *State, x *ssa.Call, mode, data, b, dst Term, elem types.Type) *State
